@@ -214,11 +214,30 @@ fn gen_pair_days(r: &mut Rng) -> (i64, i64) {
     (a, b)
 }
 
+/// A time-of-day difference in which only a chosen subset of the units (ns, us, ms, s, min, h) is non-zero: the
+/// difference then has zero fields *between* non-zero ones (e.g. whole microseconds and nothing else).
+fn sparse_delta(r: &mut Rng) -> i64 {
+    const UNIT: [i64; 6] = [1, 1_000, 1_000_000, 1_000_000_000, 60_000_000_000, 3_600_000_000_000];
+    let mut d = 0i64;
+    let mask = r.range(1, 63);
+    for (u, unit) in UNIT.iter().enumerate() {
+        if mask >> u & 1 == 1 {
+            d += unit * if u == 5 { r.range(1, 23) } else if u >= 3 { r.range(1, 59) } else { r.range(1, 999) };
+        }
+    }
+    if r.chance(1, 2) {
+        -d
+    } else {
+        d
+    }
+}
+
 fn gen_pair_nod(r: &mut Rng) -> (i64, i64) {
     let a = gen::gen_nod(r);
-    let b = match r.below(5) {
+    let b = match r.below(7) {
         0 => a,
         1 => (a + r.range(-3, 3)).clamp(0, NS_DAY as i64 - 1),
+        2 | 3 => (a + sparse_delta(r)).rem_euclid(NS_DAY as i64),
         _ => gen::gen_nod(r),
     };
     (a, b)
@@ -507,6 +526,7 @@ pub fn run_zoned(cx: &mut Ctx, r: &mut Rng) {
                 1 => a,
                 2 => (a + r.range(-40 * 86400, 40 * 86400) as i128 * NS).clamp(MIN_NS, MAX_NS),
                 3 => (a + r.range(-800 * 86400, 800 * 86400) as i128 * NS + r.range(-999_999_999, 999_999_999) as i128).clamp(MIN_NS, MAX_NS),
+                5 => (a + r.range(-400, 400) as i128 * NS_DAY + sparse_delta(r) as i128).clamp(MIN_NS, MAX_NS),
                 4 => {
                     // same wall-clock time on another day (crossing time of day exactly)
                     let days = r.range(-400, 400);
